@@ -478,6 +478,7 @@ func GenDatum(t *rapid.T, p Profile) *Node {
 		minLen = 0
 	}
 	n := genNode(t, ty, p, p.Depth, minLen)
+	addSlashTwins(t, n, p)
 	if ty.K == KMap && ty.Elem.K == KIface && rapid.IntRange(0, 2).Draw(t, "wrapTop") == 0 {
 		return InIface(n)
 	}
@@ -604,4 +605,40 @@ func NormalizeJSON(n *Node) *Node {
 		}
 	}
 	return &c
+}
+
+// addSlashTwins adds, next to a key K whose value is a map holding key Y, a key
+// "K/Y" (an identifier may contain slashes): two different locations whose
+// paths read the same once joined with slashes.
+func addSlashTwins(t *rapid.T, n *Node, p Profile) {
+	for n != nil && (n.T.K == KIface || n.T.K == KPtr) && !n.Nil {
+		n = n.Elem
+	}
+	if n == nil || n.T.K != KMap || n.T.Key.K != KString || n.T.Key.Named || n.T.Elem.K != KIface || n.Nil {
+		return
+	}
+	have := map[string]bool{}
+	for _, k := range n.Keys {
+		have[k.S] = true
+	}
+	for i, k := range n.Keys {
+		inner := n.Elems[i].Dyn()
+		for inner != nil && inner.T.K == KPtr && !inner.Nil {
+			inner = inner.Elem
+		}
+		if inner == nil || inner.T.K != KMap || inner.T.Key.K != KString || len(inner.Keys) == 0 || k.S == "" {
+			continue
+		}
+		if rapid.IntRange(0, 2).Draw(t, "slashTwin") != 0 {
+			continue
+		}
+		y := inner.Keys[rapid.IntRange(0, len(inner.Keys)-1).Draw(t, "twinOf")].S
+		tw := k.S + "/" + y
+		if have[tw] {
+			continue
+		}
+		have[tw] = true
+		n.Keys = append(n.Keys, &Node{T: n.T.Key, S: tw})
+		n.Elems = append(n.Elems, InIface(GenScalar(t, Scalar(KString), p)))
+	}
 }
